@@ -575,6 +575,7 @@ void var_opt_union<T, A>::mark_moving_gadget_coercer(var_opt_sketch<T, A>& sk) c
   sk.h_ = result_h;
   sk.r_ = result_r;
   sk.total_wt_r_ = result_r_weight;
+  sk.convert_to_heap(); // H was copied in array order of the unmarked items
 }
 
 // this is basically a continuation of get_result(), but modifying the input gadget copy
